@@ -2,7 +2,7 @@
 # usage: lib/showgoal.sh <file.v relative to /verif/coq> LINE [maxlines]
 # compiles a temp copy with "Show." inserted at the start of LINE (after bullets) and prints the goal there.
 f=$1; n=$2
-tmp=$(mktemp /tmp/showgoal.XXXXXX.v)
+tmp=/tmp/sg_$$_$RANDOM.v
 python3 - "$f" "$n" "$tmp" <<'PY'
 import sys, re
 f, n, tmp = sys.argv[1], int(sys.argv[2]), sys.argv[3]
